@@ -326,9 +326,8 @@ def po_v2_deposit(S):
             else:
                 usd = usd + share
             minted = minted + per_usd * usd
-    S.check("minted==supply/poolValue*(after-fee-value+capped-impact)", S.eq(r.gm_amount, minted))
-    S.check("positive-impact-credited<=impact-pool-per-leg", impact <= 0 or S.le(r.gm_amount, per_usd * ((la - fee * la) * d["longPrice"] + (sa - fee * sa) * d["shortPrice"]
-            + (d["impactPoolAmount"] * d["shortPrice"] if la > 0 else 0) + (d["impactPoolAmount"] * d["longPrice"] if sa > 0 else 0))))
+    S.check("minted==supply/poolValue*(after-fee-value+impact-capped-by-the-impact-pool)", S.eq(r.gm_amount, minted))
+    # "capped by the impact pool" is the min(..., impactPoolAmount) inside the minted formula above
     S.check("fees==factor*amount", S.eq(r.long_fee, fee * la if la > 0 else 0) and S.eq(r.short_fee, fee * sa if sa > 0 else 0))
     S.check("holding+=minted", S.eq(m.amount, held0 + r.gm_amount))
     S.check("wallet-=deposited", (S.eq(w.broker._assets[w.long].balance, wl0 - Decimal(la)) or w.broker._assets[w.long].balance == 0)
